@@ -26,7 +26,8 @@ MANIFEST = {
              "exhaustive switch x filter-shape enumeration on generated trees; PART = restrict(FULL) on the implementation's own dumps; the garbage variant loads and dumps the same."
              " Second phase: file-level partial_eq_restricted_full, partial_succeeds_if_full_does and unrequested_files_not_read (AgreeOnReadSet) are proved."
              " Third phase: 10 filter shapes (two builder-order shapes added) and trees with absent optional files."
-             " Source-level tie: source_switches_match_model - the request.<switch> -> file table extracted from fn load_impl equals the table MEASURED on loadImpl (which corrupt file makes which single-switch load fail), by decide."),
+             " Source-level tie: source_switches_match_model - the request.<switch> -> file table extracted from fn load_impl equals the table MEASURED on loadImpl (which corrupt file makes which single-switch load fail), by decide."
+             " Last phase: Req.apply (documented meaning of DataRequest calls applied in order) with the laws all_none_reset, later_call_wins, part_call_touches_only_its_switch, filter_then_default_keeps_predicate, layers_after_filter, call_idempotent; the driver recomputes the request of every recipe with Req.apply and disagrees if the harness's interpreter differs."),
     "design_ref": "5 / C17, 8",
     "note": "trusted: Lean kernel + 3 standard axioms; harness/driver glue; parsers abstract; see docs/notes/C17.md",
     "technique": "Lean 4 proof about a switch-guarded load model + exhaustive differential partial/full loads with corrupted un-requested files",
